@@ -316,6 +316,11 @@ add("i4_msgpack_output_framing", "msgpack", overlay=DEP,
     desc="msgpack::Output: two documents are written back to back in order; with short writes the writer still receives exactly the output; a write fault => Err, accepted bytes are a prefix",
     bounds="2 one-token documents, short writes of any pattern, writer fault at any byte", functions=["msgpack::Output::transcode_from", "transcode::stream::transcode"],
     covers=["I4 msgpack short writes"], props=["C03", "C12"], timeout=900, mem_gb=12, assumptions=I_ASM)
+add("i5_yaml_docless_slice", "yaml", overlay=DEP,
+    desc="a YAML stream without any document (blank lines) from a slice: the real yaml::transcode fast path against a serde_yaml model that - like the real Loader - hands out ONE void document (visiting `none`) for a document-less stream must not call the output at all and must succeed, because that is what the reader path does with the same bytes (K9: the chunker yields no document; K7: transcode_reader then succeeds without calling the output) and the streaming transcoder refuses a void document (no visit_none)",
+    bounds="0..3 blank bytes", functions=["yaml::transcode (slice fast path)"],
+    covers=["I5v empty input", "I5v three blank bytes"], props=["C02"], timeout=900, mem_gb=12,
+    assumptions=I_ASM + ["serde_yaml: Deserializer::from_str on a stream without documents yields exactly one empty document whose deserialize_any calls visit_none (serde_yaml 0.9 loader.rs, `first` document rule)"], replay="f5")
 add("i1_json_detect_slice", "json", overlay=DEP,
     desc="json::input_matches on a slice never returns Err; invalid UTF-8 or a syntax error => Ok(false)", bounds="input 0..3 symbolic bytes",
     functions=["json::input_matches", "json::match_input_str"], covers=["I1j detected", "I1j invalid utf8 skipped"], props=["C09"], timeout=600, mem_gb=10, assumptions=I_ASM[:1])
